@@ -141,6 +141,12 @@ theorem addFireR_nodup (s : Reg) (n p : Name) (i : NodeInfo) (hp : p ∉ s.patte
   typed_nodup h6
 theorem setSourceNodeR_nodup (s : Reg) (n node : Name) (si : SourceInfo) (h : Clause.nodup s) : Clause.nodup (setSourceNodeR s n node si) := by
   unfold setSourceNodeR; reg_nodup h
+theorem assignDemandR_nodup (s : Reg) (n p : Name) (i : NodeInfo) (hp : p ∉ s.patterns) (h : Clause.nodup s) : Clause.nodup (assignDemandR s n p i) := by
+  unfold assignDemandR
+  rw [nodup_iff] at *
+  obtain ⟨h1, h2, h3, h4, h5, h6⟩ := h
+  refine ⟨AL.nodup_keys_set _ _ _ h1, h2, List.Nodup.append h3 (List.nodup_singleton p) (by simpa using hp), h4, h5, ?_⟩
+  typed_nodup h6
 theorem delNodeR_nodup (s : Reg) (key : Name) (i : NodeInfo) (h : Clause.nodup s) : Clause.nodup (delNodeR s key i) := by
   unfold delNodeR; reg_nodup h
 theorem delLinkR_nodup (s : Reg) (key : Name) (i : LinkInfo) (h : Clause.nodup s) : Clause.nodup (delLinkR s key i) := by
@@ -230,6 +236,8 @@ theorem removeFireR_obj (s : Reg) (n p : Name) (i : NodeInfo) : (removeFireR s n
   unfold removeFireR; reg_obj
 theorem setSourceNodeR_obj (s : Reg) (n node : Name) (si : SourceInfo) : (setSourceNodeR s n node si).usage .patternObj = s.usage .patternObj := by
   unfold setSourceNodeR; reg_obj
+theorem assignDemandR_obj (s : Reg) (n p : Name) (i : NodeInfo) : (assignDemandR s n p i).usage .patternObj = s.usage .patternObj := by
+  unfold assignDemandR; reg_obj
 theorem delNodeR_obj (s : Reg) (key : Name) (i : NodeInfo) : (delNodeR s key i).usage .patternObj = s.usage .patternObj := by
   unfold delNodeR; reg_obj
 theorem delLinkR_obj (s : Reg) (key : Name) (i : LinkInfo) : (delLinkR s key i).usage .patternObj = s.usage .patternObj := by
@@ -358,6 +366,8 @@ theorem removeFireR_usageNodup (s : Reg) (n p : Name) (i : NodeInfo) (h : UsageN
   unfold removeFireR; usage_nodup h
 theorem setSourceNodeR_usageNodup (s : Reg) (n node : Name) (si : SourceInfo) (h : UsageNodup s) : UsageNodup (setSourceNodeR s n node si) := by
   unfold setSourceNodeR; usage_nodup h
+theorem assignDemandR_usageNodup (s : Reg) (n p : Name) (i : NodeInfo) (h : UsageNodup s) : UsageNodup (assignDemandR s n p i) := by
+  unfold assignDemandR; usage_nodup h
 theorem delNodeR_usageNodup (s : Reg) (key : Name) (i : NodeInfo) (h : UsageNodup s) : UsageNodup (delNodeR s key i) := by
   unfold delNodeR; usage_nodup h
 theorem delLinkR_usageNodup (s : Reg) (key : Name) (i : LinkInfo) (h : UsageNodup s) : UsageNodup (delLinkR s key i) := by
